@@ -259,6 +259,54 @@ func runC08(tb ev.TB, p c08Prog) ev.Result {
 		tb.Fatalf("the same logical entry encoded twice gives different bytes")
 	}
 
+	// ---- near-identical siblings written through the SAME codec instance: an entry that differs from the
+	// first one in a single field must still round-trip to itself (a codec may keep state between calls)
+	for _, variant := range []string{"refs", "next", "payload", "time"} {
+		q := p
+		switch variant {
+		case "refs":
+			if len(q.Refs) > 0 {
+				q.Refs = append([]int{}, q.Refs[:len(q.Refs)-1]...)
+			} else {
+				// one reference that is not among the predecessors
+				for c := 0; c < len(cidPool); c++ {
+					used := false
+					for _, n := range q.Next {
+						if n%len(cidPool) == c {
+							used = true
+						}
+					}
+					if !used {
+						q.Refs = []int{c}
+						break
+					}
+				}
+			}
+		case "next":
+			if len(q.Next) >= 2 {
+				q.Next = append([]int{p.Next[len(p.Next)-1]}, p.Next[:len(p.Next)-1]...) // rotated order (fresh slice)
+			} else {
+				continue
+			}
+		case "payload":
+			q.Payload = append(append([]byte{}, p.Payload...), 'x')
+		case "time":
+			q.Time = p.Time + 1
+		}
+		sv := create(tb, s1, q, io)
+		dv, err := entry.FromMultihashWithIO(ctx, s1.API(), sv.GetHash(), provider, io)
+		if err != nil {
+			tb.Fatalf("reading back the %s-sibling failed (codec %s): %v", variant, codec, err)
+		}
+		compareEntries(tb, "read-back of the "+variant+"-sibling ("+codec.String()+")", sv, dv)
+		if err := dv.Verify(provider, io); err != nil {
+			tb.Fatalf("the %s-sibling read back does not verify (codec %s): %v", variant, codec, err)
+		}
+		if sv.GetHash().Equals(e.GetHash()) {
+			tb.Fatalf("two entries that differ in %s have the same identifier", variant)
+		}
+	}
+
 	// ---- manifest
 	heads := pool(p.Heads)
 	mc, err := io.Write(ctx, s1.API(), &iface.JSONLog{ID: p.LogID, Heads: heads}, nil)
